@@ -36,7 +36,8 @@ FINDINGS = ["prio-last-column-indexerror", "empty-token-shifts-columns"]
 def tok(cls: str, i: int) -> str:
     # representatives look like what the writer emits for real projects: locations are percent-quoted
     # (Caf%C3%A9.html, run%20me.html), so a '%' can stand in any column of a damaged line
-    return {"w": f"w{i}%20x.y" if i % 2 else f"w{i}.x", "py": f"py:t{i}", "std": f"std:t{i}", "pyx": f"pyramid:t{i}",
+    # ... and some words LOOK like numbers to str.isdigit() although int() rejects them: 3\u00b2, --5 (words, not priorities)
+    return {"w": (f"{i}\u00b2", f"w{i}%20x.y", f"--{i}", f"w{i}.x")[i % 4], "py": f"py:t{i}", "std": f"std:t{i}", "pyx": f"pyramid:t{i}",
             "int": "-1" if i % 2 == 0 else str(i), "e": "", "d": f"u{i}%C3%A9.html#x-$"}[cls]
 
 
@@ -438,6 +439,27 @@ def run_multi(cfg: List[Dict[str, str]]) -> Dict[str, Any]:
     return {"raised": raised, "errors": system.violations - before, "links": links, "asked": len(session.asked)}
 
 
+def run_history(events: List[str], inv_bytes: Dict[int, bytes]) -> Dict[str, Any]:
+    """Look-ups and loads on ONE real SphinxInventory, in the given order."""
+    from pydoctor import sphinx
+    log = Log()
+    reader = sphinx.SphinxInventory(logger=log)
+    answers: List[bool] = []
+    raised = None
+    try:
+        for e in events:
+            n = int(e[1])
+            if e[0] == "L":
+                answers.append(reader.getLink(f"pkg.n{n}") == f"{BASE}/pkg.n{n}.html")
+            elif e[0] == "I":
+                reader.update(BytesCache(inv_bytes[n]), BASE + "/objects.inv")
+            else:
+                reader.update(BytesCache(inv_bytes[n][: len(inv_bytes[n]) - 9]), BASE + "/objects.inv")
+    except Exception as ex:
+        raised = type(ex).__name__
+    return {"raised": raised, "answers": answers, "errors": len(log.messages)}
+
+
 # ------------------------------------------------------------------------------------------- check
 def inv_cfg(mode: str, classes: List[str], maxcols: int, maxdepth: int, open_ids: List[str], fixed_ids: List[str]) -> str:
     return (f'SPECIFICATION Spec\nCONSTANTS Mode = "{mode}"\n          Classes = {tla(set(classes))}\n'
@@ -464,7 +486,7 @@ def run(ctx: Ctx) -> int:
     for fid in FINDINGS:
         ctx.register_matcher(fid, kf_matcher(fid, open_ids))
     stats = {k: 0 for k in ("rows", "usable_rows", "lenient_rows", "objects", "updates", "drift", "violations", "file_rows",
-                            "superseded_not_listed", "byte_strings", "multi")}
+                            "superseded_not_listed", "byte_strings", "multi", "histories")}
     design: List[str] = []
 
     def tlc(mode: str, classes: List[str], maxcols: int = 0, maxdepth: int = 0, env: Optional[Dict[str, str]] = None,
@@ -496,7 +518,11 @@ def run(ctx: Ctx) -> int:
     for shape in sorted(model_rt):
         src, full = shape_source(list(shape))
         system = build_system({"m": src, "_priv": "x = 1\n'doc'\nclass Hid:\n    def meth(self): pass\n",
-                               "caf\u00e9": "'doc'\nclass \u00c9lan:\n    'doc'\n    def m\u00e9thode(self): 'd'\n"},
+                               "caf\u00e9": "'doc'\nclass \u00c9lan:\n    'doc'\n    def m\u00e9thode(self): 'd'\n",
+                               # documented objects whose name is not an identifier: property setter / deleter, a script
+                               "run-me": "'doc'\nclass Box:\n    'doc'\n    @property\n    def width(self):\n        'w'\n"
+                                         "    @width.setter\n    def width(self, v):\n        'set'\n"
+                                         "    @width.deleter\n    def width(self):\n        'del'\n"},
                               hidden="_priv.Hid")
         if full not in system.allobjects:
             raise MachineryError(f"shape {shape}: generated project has no object {full!r}: {sorted(system.allobjects)}")
@@ -628,6 +654,29 @@ def run(ctx: Ctx) -> int:
         if stats["multi"] % 100 == 1:
             ctx.sample({"urls": cfgm, "observed": obs})
 
+    # ---- look-ups and loads in any order on one reader
+    r = tlc("hist", classes)
+    inv_bytes = {n: HEADER + zlib.compress(f"pkg.n{n} py:module -1 pkg.n{n}.html -\n".encode()) for n in (1, 2)}
+    for rec in r.printed:
+        events = seq(rec["cfg"])
+        obs = run_history(events, inv_bytes)
+        ctx.traces += 1
+        stats["histories"] += 1
+        if obs["raised"] is not None or obs["answers"] != seq(rec["answers"]) or obs["errors"] != rec["errors"]:
+            stats["drift"] += 1
+            ctx.drift_note({"events": events, "model": {"answers": seq(rec["answers"]), "errors": rec["errors"]}, "real": obs})
+        want = []
+        for i, e in enumerate(events):
+            if e[0] == "L":
+                want.append(any(x == "I" + e[1] for x in events[:i]))
+        if obs["raised"] is not None or obs["answers"] != want:
+            stats["violations"] += 1
+            ctx.violation({"invariant": "NeverRaises" if obs["raised"] else "LookupsFollowLoads", "origin": "history",
+                           "events": events, "observed": obs, "expected": {"answers": want},
+                           "design_classes": [], "drift": True, "key": f"hist:{events}"})
+        if stats["histories"] % 250 == 1:
+            ctx.sample({"events": events, "observed": obs})
+
     # ---- for all byte strings: corrupted copies of a really written inventory (adjunct to the staged model: the
     #      only claims are "never raises" and "something is reported or something resolves")
     good, _ = write_inventory(ctx, build_system({"m": shape_source([False, True, True])[0], "n": "def f(): 'd'\nx = 1\n'doc'\n",
@@ -722,6 +771,11 @@ def replay(ctx: Ctx, path: str) -> int:
             nm = " ".join(toks[p - 1] for p in seq(ref["name"]))
             bad = reader.getLink(nm) != expected_url(nm, toks[ref["loc"] - 1])
         print(f"replay: line {line!r} -> {real} / {effect}:", "still violated" if bad else "holds now")
+    elif w.get("origin") == "history":
+        inv_bytes = {n: HEADER + zlib.compress(f"pkg.n{n} py:module -1 pkg.n{n}.html -\n".encode()) for n in (1, 2)}
+        obs = run_history(w["events"], inv_bytes)
+        bad = obs["raised"] is not None or obs["answers"] != w["expected"]["answers"]
+        print("replay: history", w["events"], "->", obs, "still violated" if bad else "holds now")
     elif w.get("origin") == "multi":
         obs = run_multi(w["cfg"])
         exp = w["expected"]
